@@ -416,8 +416,8 @@ func (e *c17Env) onEvict(ctx context.Context, job *sev1alpha1.PodMigrationJob, p
 			e.stamp(sig, "reservation-first job %s evicts pod %s/%s (uid %s, node %q) while its reservation is %s", job.Name, pod.Namespace, pod.Name, pod.UID, pod.Spec.NodeName, c17ResvString(resv))
 		}
 	}
-	if j.podUID != "" && pod.UID != j.podUID {
-		e.sawEvictReplacement = true
+	if api != nil && api.Spec.PodRef != nil && api.Spec.PodRef.UID != "" && api.Spec.PodRef.UID != pod.UID {
+		e.sawEvictReplacement = true // the root of the finding reported for this property; by itself not forbidden by the statement
 	}
 	if j.evicts > 1 {
 		e.sawEvictRetry = true
@@ -1205,7 +1205,7 @@ func TestVerifC17History(t *testing.T) {
 		c.ClassIf(e.sawFaultAfterEvict, "write-fails-right-after-evict")
 		c.ClassIf(e.sawResvChangeWhileRunning, "reservation-changes-under-running-job")
 		c.ClassIf(e.sawSameNode, "reservation-scheduled-on-pod-node")
-		c.ClassIf(e.sawEvictReplacement, "evicted-pod-is-a-replacement(uid differs; not asserted)")
+		c.ClassIf(e.sawEvictReplacement, "evicted-pod-uid-differs-from-job-podref-uid(not asserted)")
 		c.ClassIf(e.sawEvictRetry, "evict-retried-after-api-failure")
 		c.ClassIf(e.sawBoundBeforeEvict, "reservation-bound-before-eviction")
 		c.ClassIf(e.sawClockPastTTL, "clock-passes-ttl-of-live-job")
